@@ -45,6 +45,7 @@ extern const harness_t* const all_harnesses[];
 // ---- ghost API (uninstrumented, atomic w.r.t. the explored interleavings) ----
 #define GHOST __attribute__((no_sanitize("thread"), noinline))
 
+void g_expect_spawn(int idx);  // the next fiber created is program fiber idx
 void g_bind(int idx);        // program fiber idx starts on the current fiber
 void g_done(int idx);        // program fiber idx returned from its body
 void g_set_op(int idx, int opno);
@@ -59,6 +60,9 @@ uint64_t g_switch_seq(void);
 int g_fiber_switches(int idx);  // number of times program fiber idx was switched in
 void g_expect_kernel_block(int on);
 void* g_fiber_ptr(int idx);
+int g_fiber_saved(int idx);      // program fiber idx has completed a switch-out and is not running
+int g_fiber_destroyed(int idx);
+uint64_t g_ticks(void);
 int g_all_done(void);
 int g_n_done(void);
 void g_note_main_parked(void);
@@ -68,6 +72,13 @@ typedef struct swlog {
   int16_t who[8192];  // program fiber idx, -1 main, -2 maintenance, -3 other
 } swlog_t;
 const swlog_t* g_swlog(int vthread);
+// global event log: type 0 = switch-in on 'thread', 1 = made runnable on 'thread'
+typedef struct gev {
+  uint8_t type;
+  int8_t thread;
+  int16_t who;  // program fiber idx, -1 main, -2 maintenance, -3 other
+} gev_t;
+const gev_t* g_evlog(int* n);
 int g_ready_count(void);  // fibers with a pending wake right now
 
 // instrumented side entry
